@@ -109,7 +109,10 @@ def pipe_args(c):
         a.append('--with-nth=' + bytes(int(x) for x in c['withnth'].split(',')).decode())
     if c['delim'] != 'awk':
         a.append('--delimiter=' + bytes(int(x) for x in c['delim'][2:].split(',')).decode())
-    a.append('--filter=' + c['query'].decode('utf-8', 'surrogateescape'))
+    if c.get('sel1'):
+        a += ['--select-1', '--exit-0', '--query=' + c['query'].decode('utf-8', 'surrogateescape')]
+    else:
+        a.append('--filter=' + c['query'].decode('utf-8', 'surrogateescape'))
     return a
 
 
@@ -156,6 +159,28 @@ def drv_pipe(tier, seed, ctx):
         return case_line_pipe(c, rc, out, crashed)
     with ThreadPoolExecutor(max_workers=8) as ex:
         lines = list(ex.map(work, cases))
+    if ctx.get('pid') == 'C07':
+        # --select-1 / --exit-0: on inputs with at most one match fzf prints and exits without starting the
+        # finder, exactly as filter mode does (an input with more matches would need a terminal: not run)
+        extra = []
+        for c, l in zip(list(cases), list(lines)):
+            ans = l.split(' => ')[1].split(' ')
+            if len(ans) != 2 or ans[0] not in ('0', '1'):
+                continue
+            term = 0 if c['print0'] else 10
+            body = [int(x) for x in ans[1].split(',')] if ans[1] not in ('-', '') else []
+            nrec = body.count(term) - (1 if c['printq'] else 0)
+            if nrec <= 1 and (c['read0'] or term == 10 or True):
+                c1 = dict(c, sel1=True)
+                extra.append(c1)
+        extra = extra[:60 if tier == 'quick' else 1500]
+
+        def work1(c):
+            rc, out, crashed = run_pipe_case(ctx['fzf'], c)
+            return case_line_pipe(c, rc, out, crashed).replace('filter proc ', 'filter proc1 ', 1)
+        with ThreadPoolExecutor(max_workers=8) as ex:
+            lines += list(ex.map(work1, extra))
+        cases = cases + extra
     rs = evaluate(ctx['driver'], lines)
     for res, c in zip(rs, cases):
         res['proc'] = dict(kind='pipe', argv=pipe_args(c), stdin=enc_bytes(c['stream']), chunks=c['chunks'])
